@@ -126,6 +126,9 @@ def run_check(modname, tier, seed):
         mod.selftest()
     cases = mod.cases(tier)
     n = len(cases)
+    import gc
+    gc.collect()
+    gc.freeze()      # the (large) case list is immortal: keep it out of the per-batch collections of the workers
     known = load_known(prop)
     _STATE.update(mod=mod, tier=tier, cases=cases, known=known)
     workers = int(os.environ.get('VERIF_WORKERS', '16'))
